@@ -296,7 +296,7 @@ def run(ctx: Ctx) -> None:
               bad=f"success answer is status {okr.status} body {parsed!r}: not exactly the three fields (claims or extras must never be passed through)")
     ctx.check(okr.headers.get("cache-control", "").lower() == "no-store", "RF-TABLE", "success-not-cacheable-by-intermediaries", on_post, None, ok="Cache-Control: no-store", bad="the identity assertion may sit in a shared cache (no Cache-Control: no-store)")
     ctx.check(TOKEN not in okr.everything(), "RF-TAINT", "credential-never-echoed:success", on_post, None, ok="credential absent from the success response and its log line", bad="the subject credential appears in the success response or its log line")
-    ttl_classes = {"non-positive": [0, -5, -0.0], "non-finite": [float("nan"), float("inf"), float("-inf")], "non-numeric": ["300", None]}
+    ttl_classes = {"non-positive": [0, -5, -0.0], "non-finite": [float("nan"), float("inf"), float("-inf")], "non-numeric": ["300", None], "fractional-positive": [0.5, 0.001, 299.97, 1.5]}
     for cls, vals in ttl_classes.items():
         bad = []
         for v in vals:
